@@ -21,6 +21,46 @@ pub static IN_WAKE: AtomicBool = AtomicBool::new(false);
 pub static PROGRESS: AtomicU64 = AtomicU64::new(0);
 
 // ------------------------------------------------------------------------------------------------
+// engine T: state shared with the waker-firing threads (see engine_t.rs)
+
+pub struct TTable {
+    /// wakers registered by `PendLater` steps and not yet taken by a firing thread
+    pub wakers: Vec<(Cid, Waker)>,
+    /// firing threads that hold a waker taken from the table and have not finished invoking it
+    pub in_flight: usize,
+    /// highest epoch of a root waker that has been invoked
+    pub woken_epoch: usize,
+    pub stop: bool,
+    pub fires: u64,
+    pub fires_stale: u64,
+    pub root_wakes: u64,
+    pub root_wakes_stale: u64,
+    /// epoch of the root waker presented in the most recent poll (for the stale statistics only)
+    pub cur_epoch: usize,
+    pub wake_panics: Vec<String>,
+}
+pub struct TShared {
+    pub t: std::sync::Mutex<TTable>,
+    pub cv_main: std::sync::Condvar,
+    pub cv_workers: std::sync::Condvar,
+}
+impl TShared {
+    pub fn new() -> TShared {
+        TShared {
+            t: std::sync::Mutex::new(TTable { wakers: vec![], in_flight: 0, woken_epoch: 0, stop: false, fires: 0, fires_stale: 0, root_wakes: 0, root_wakes_stale: 0, cur_epoch: 0, wake_panics: vec![] }),
+            cv_main: std::sync::Condvar::new(),
+            cv_workers: std::sync::Condvar::new(),
+        }
+    }
+    pub fn push(&self, c: Cid, wk: Waker) {
+        let mut t = self.t.lock().unwrap();
+        t.wakers.push((c, wk));
+        drop(t);
+        self.cv_workers.notify_one();
+    }
+}
+
+// ------------------------------------------------------------------------------------------------
 // firing wakers
 
 /// Invoke waker `widx` of child `c`. Must be called without a world borrow.
@@ -190,7 +230,8 @@ fn poll_prologue(w: &mut World, id: Cid) -> bool {
             _ => {}
         }
     }
-    if w.std_cfg && w.ch[id].last == Last::Pending && parent_selective(w, id) {
+    // (engine T fires wakers on other threads, which cannot update this thread-local bookkeeping: no I4 there)
+    if w.std_cfg && w.threaded.is_none() && w.ch[id].last == Last::Pending && parent_selective(w, id) {
         w.st.i4_obligations += 1;
         if !w.ch[id].any_woken {
             w.violate(&["C16"], format!("child {id} last returned Pending and was polled again although none of its wakers was invoked"));
@@ -291,7 +332,14 @@ pub fn leaf_poll(id: Cid, cx: &mut Context<'_>) -> Option<Res> {
             Res::Pend
         }
         Step::PendLater => {
-            w(|w| w.ch[id].later_outstanding = true);
+            let sh = w(|w| {
+                w.ch[id].later_outstanding = true;
+                w.threaded.clone()
+            });
+            if let Some(sh) = sh {
+                // engine T: another thread will invoke this waker
+                sh.push(id, cx.waker().clone());
+            }
             Res::Pend
         }
         Step::PendNever => Res::Pend,
@@ -471,7 +519,7 @@ pub fn node_enter(cid: Cid, cx: &Context<'_>) -> Option<Waker> {
         w.ch[cid].model.cur.clear();
         w.poll_stack.push(cid);
         // wrap the waker only where I4 is checked for this node (std build, selective parent)
-        if !is_root && w.std_cfg && parent_selective(w, cid) {
+        if !is_root && w.std_cfg && w.threaded.is_none() && parent_selective(w, cid) {
             Some(Waker::from(Arc::new(LogWaker { cid, inner: cx.waker().clone() })))
         } else {
             None
